@@ -16,6 +16,7 @@ import (
 	"github.com/ipld/go-storethehash/store/primary"
 	mhprimary "github.com/ipld/go-storethehash/store/primary/multihash"
 	"github.com/ipld/go-storethehash/store/types"
+	"github.com/ipld/go-storethehash/store/vhook"
 )
 
 /* An append-only log [`recordlist`]s.
@@ -171,6 +172,7 @@ func Open(ctx context.Context, path string, primary primary.PrimaryStorage, inde
 		if ok {
 			header.PrimaryFileSize = mp.FileSize()
 		}
+		vhook.Point("index.open.header")
 		if err = writeHeader(headerPath, header); err != nil {
 			return nil, err
 		}
@@ -234,6 +236,7 @@ func Open(ctx context.Context, path string, primary primary.PrimaryStorage, inde
 		return nil, ctx.Err()
 	}
 
+	vhook.Point("index.open.file")
 	file, err = openFileAppend(indexFileName(path, lastIndexNum))
 	if err != nil {
 		return nil, err
@@ -365,6 +368,7 @@ func scanIndexFile(ctx context.Context, basePath string, fileNum uint32, buckets
 				log.Errorw("Unexpected EOF scanning index", "file", indexPath)
 				file.Close()
 				// Cut off incomplete data
+				vhook.Point("index.scan.truncate")
 				e := os.Truncate(indexPath, pos)
 				if e != nil {
 					log.Errorw("Error truncating file", "err", e, "file", indexPath)
@@ -393,6 +397,7 @@ func scanIndexFile(ctx context.Context, basePath string, fileNum uint32, buckets
 				log.Errorw("Unexpected EOF scanning index record", "file", indexPath)
 				file.Close()
 				// Cut off incomplete data
+				vhook.Point("index.scan.truncate")
 				e := os.Truncate(indexPath, pos-sizePrefixSize)
 				if e != nil {
 					log.Errorw("Error truncating file", "err", e, "file", indexPath)
@@ -703,10 +708,12 @@ func (idx *Index) flushBucket(bucket BucketIndex, newData []byte) (types.Block, 
 			log.Warnw("Creating index file overwrites existing. Check that file size limit is not too small resulting in too many files.",
 				"maxFileSize", idx.maxFileSize, "indexPath", indexPath)
 		}
+		vhook.Point("index.roll.create")
 		file, err := openFileAppend(indexPath)
 		if err != nil {
 			return types.Block{}, 0, fmt.Errorf("cannot open new index file %s: %w", indexPath, err)
 		}
+		vhook.Point("index.roll.flushOld")
 		if err = idx.writer.Flush(); err != nil {
 			return types.Block{}, 0, fmt.Errorf("cannot write to index file %s: %w", idx.file.Name(), err)
 		}
@@ -823,6 +830,7 @@ func (idx *Index) Get(key []byte) (types.Block, bool, error) {
 	idx.bucketLk.RLock()
 	cached, indexOffset, fileNum, err := idx.readBucketInfo(bucket)
 	idx.bucketLk.RUnlock()
+	vhook.Point("index.get.unlocked")
 	if err != nil {
 		return types.Block{}, false, fmt.Errorf("error reading bucket: %w", err)
 	}
@@ -867,6 +875,7 @@ func (idx *Index) Flush() (types.Work, error) {
 	idx.nextPool = make(bucketPool, bucketPoolSize)
 	idx.outstandingWork = 0
 	idx.bucketLk.Unlock()
+	vhook.Point("index.flush.swapped")
 
 	blks := make([]bucketBlock, 0, len(idx.curPool))
 	var work types.Work
@@ -878,10 +887,12 @@ func (idx *Index) Flush() (types.Work, error) {
 		blks = append(blks, bucketBlock{bucket, blk})
 		work += newWork
 	}
+	vhook.Point("index.flush.write")
 	err := idx.writer.Flush()
 	if err != nil {
 		return 0, fmt.Errorf("cannot flush data to index file %s: %w", idx.file.Name(), err)
 	}
+	vhook.Point("index.flush.written")
 	idx.bucketLk.Lock()
 	defer idx.bucketLk.Unlock()
 	for _, blk := range blks {
@@ -912,6 +923,7 @@ func (idx *Index) Close() error {
 			<-idx.gcDone
 			idx.gcStop = nil
 		}
+		vhook.Point("index.close.gcStopped")
 		_, err = idx.Flush()
 		if err != nil {
 			idx.file.Close()
@@ -920,6 +932,7 @@ func (idx *Index) Close() error {
 		if err = idx.file.Close(); err != nil {
 			return
 		}
+		vhook.Point("index.close.fileClosed")
 		err = idx.saveBucketState()
 	})
 	return err
@@ -929,6 +942,7 @@ func (idx *Index) saveBucketState() error {
 	bucketsFileName := savedBucketsName(idx.basePath)
 	bucketsFileNameTemp := bucketsFileName + ".tmp"
 
+	vhook.Point("index.save.create")
 	file, err := os.Create(bucketsFileNameTemp)
 	if err != nil {
 		return err
@@ -944,6 +958,7 @@ func (idx *Index) saveBucketState() error {
 			return err
 		}
 	}
+	vhook.Point("index.save.write")
 	if err = writer.Flush(); err != nil {
 		return err
 	}
@@ -951,6 +966,7 @@ func (idx *Index) saveBucketState() error {
 		return err
 	}
 
+	vhook.Point("index.save.rename")
 	// Only create the file after saving all buckets.
 	return os.Rename(bucketsFileNameTemp, bucketsFileName)
 }
@@ -969,6 +985,7 @@ func loadBucketState(ctx context.Context, basePath string, buckets Buckets, maxF
 		if e != nil {
 			log.Error("Error closing saved buckets file", "err", err)
 		}
+		vhook.Point("index.load.remove")
 		if e = os.Remove(bucketsFileName); e != nil {
 			log.Error("Error removing saved buckets file", "err", err)
 		}
@@ -1293,6 +1310,7 @@ func remapIndex(ctx context.Context, mp *mhprimary.MultihashPrimary, buckets Buc
 		return nil, err
 	}
 	if remapper == nil {
+		vhook.Point("remap.header0")
 		// Update the header to indicate remapping is completed.
 		header.PrimaryFileSize = mp.FileSize()
 		return nil, writeHeader(headerPath, header)
@@ -1333,6 +1351,7 @@ func remapIndex(ctx context.Context, mp *mhprimary.MultihashPrimary, buckets Buc
 			continue
 		}
 
+		vhook.Point("remap.copy")
 		err = copyFile(fileName, tmpName)
 		if err != nil {
 			return nil, err
@@ -1376,6 +1395,7 @@ func remapIndex(ctx context.Context, mp *mhprimary.MultihashPrimary, buckets Buc
 				binary.LittleEndian.PutUint64(records[record.Pos:], uint64(offset))
 				recordCount++
 			}
+			vhook.Point("remap.write")
 			if _, err = file.WriteAt(data, int64(localPos)); err != nil {
 				return nil, fmt.Errorf("failed to remap primary offset in index file %s: %w", fileName, err)
 			}
@@ -1400,6 +1420,7 @@ func remapIndex(ctx context.Context, mp *mhprimary.MultihashPrimary, buckets Buc
 
 		// Create a ".remapped" file to indicate this file was remapped, and
 		// rename the temp file to the original index file name.
+		vhook.Point("remap.marker")
 		doneFile, err := os.Create(doneName)
 		if err != nil {
 			log.Errorw("Error creating remapped file", "err", err, "file", doneName)
@@ -1408,6 +1429,7 @@ func remapIndex(ctx context.Context, mp *mhprimary.MultihashPrimary, buckets Buc
 			log.Errorw("Error closeing remapped file", "err", err, "file", doneName)
 		}
 
+		vhook.Point("remap.rename")
 		if err = os.Rename(tmpName, fileName); err != nil {
 			return nil, fmt.Errorf("error renaming remapped file %s to %s: %w", tmpName, fileName, err)
 		}
@@ -1416,6 +1438,7 @@ func remapIndex(ctx context.Context, mp *mhprimary.MultihashPrimary, buckets Buc
 		log.Infof("Remapped index file %s: %.1f%% done", filepath.Base(fileName), float64(1000*indexCount/indexTotal)/10)
 	}
 
+	vhook.Point("remap.header")
 	// Update the header to indicate remapping is completed.
 	header.PrimaryFileSize = mp.FileSize()
 	if err = writeHeader(headerPath, header); err != nil {
@@ -1425,6 +1448,7 @@ func remapIndex(ctx context.Context, mp *mhprimary.MultihashPrimary, buckets Buc
 	// Remove the completion marker files.
 	for fileNum := range fileBuckets {
 		doneName := indexFileName(basePath, fileNum) + ".remapped"
+		vhook.Point("remap.unmark")
 		if err = os.Remove(doneName); err != nil {
 			log.Errorw("Error removing remapped marker", "file", doneName, "err", err)
 		}
@@ -1489,6 +1513,7 @@ func MoveFiles(indexPath, newDir string) error {
 			return err
 		}
 		newPath := filepath.Join(newDir, filepath.Base(fileName))
+		vhook.Point("move.file")
 		if err = os.Rename(fileName, newPath); err != nil {
 			return err
 		}
@@ -1496,6 +1521,7 @@ func MoveFiles(indexPath, newDir string) error {
 
 	headerPath := headerName(indexPath)
 	newPath := filepath.Join(newDir, filepath.Base(headerPath))
+	vhook.Point("move.header")
 	if err = os.Rename(headerPath, newPath); err != nil {
 		return err
 	}
@@ -1504,6 +1530,7 @@ func MoveFiles(indexPath, newDir string) error {
 	_, err = os.Stat(bucketsPath)
 	if !os.IsNotExist(err) {
 		newPath = filepath.Join(newDir, filepath.Base(bucketsPath))
+		vhook.Point("move.buckets")
 		if err = os.Rename(bucketsPath, newPath); err != nil {
 			return err
 		}
